@@ -317,3 +317,59 @@ Proof.
   - unfold expected_req. now rewrite E1, E2, E3.
   - inversion H; inversion H'; subst. now apply IH.
 Qed.
+
+(* ---- the operation's parameter set ---- *)
+Lemma outcome_cases (g : list nat * option bytes) :
+  (fst g = [] /\ outcome g = (None, snd g)) \/ (exists c l, fst g = c :: l /\ outcome g = (Some c, None)).
+Proof.
+  unfold outcome, first_status, decoding_consumer. destruct (fst g) as [|c l] eqn:E.
+  - left. split; reflexivity.
+  - right. exists c, l. split; reflexivity.
+Qed.
+
+(* a refusal of the gate is served whatever the operation declares to read *)
+Theorem reflective_refusal k form_st hasbody parse consumes keys s :
+  parse <> Some [] ->
+  fst (expected hasbody parse consumes keys) = Some s ->
+  reflective k form_st (gate_untyped hasbody parse parse consumes keys) = (Some s, None).
+Proof.
+  intros NE H. rewrite <- (gate_untyped_expected hasbody parse consumes keys NE) in H.
+  destruct (outcome_cases (gate_untyped hasbody parse parse consumes keys)) as [[E O]|[c [l [E O]]]];
+    rewrite O in H; cbn [fst] in H; [discriminate|].
+  injection H as ->. unfold reflective. rewrite E. reflexivity.
+Qed.
+
+Lemma opt_bytes_eqb_refl (o : option bytes) : opt_eqb bytes_eqb o o = true.
+Proof. destruct o as [b|]; cbn; [apply bytes_eqb_refl|reflexivity]. Qed.
+
+(* the reflective entry point meets the specification for every parameter set and every answer of the form stage *)
+Theorem reflective_meets_spec k form_st hasbody parse consumes keys :
+  parse <> Some [] ->
+  reflective_ok k (is_some form_st) (expected hasbody parse consumes keys)
+    (fst (reflective k form_st (gate_untyped hasbody parse parse consumes keys)))
+    (snd (reflective k form_st (gate_untyped hasbody parse parse consumes keys)))
+    (is_none (fst (reflective k form_st (gate_untyped hasbody parse parse consumes keys)))) = true.
+Proof.
+  intros NE. rewrite <- (gate_untyped_expected hasbody parse consumes keys NE).
+  destruct (outcome_cases (gate_untyped hasbody parse parse consumes keys)) as [[E O]|[c [l [E O]]]];
+    rewrite O; unfold reflective, reflective_ok; rewrite E; cbn [fst snd].
+  - destruct k; cbn [is_form reads_body andb is_none is_some opt_eqb].
+    + rewrite opt_bytes_eqb_refl. reflexivity.
+    + reflexivity.
+    + reflexivity.
+    + destruct form_st as [c|]; reflexivity.
+  - cbn [opt_eqb is_none negb]. rewrite Nat.eqb_refl. reflexivity.
+Qed.
+
+(* a refusal served by the reflective entry point is the gate's own, or the form stage's of a formData operation *)
+Theorem reflective_refusal_origin k f hasbody parse consumes keys s :
+  parse <> Some [] ->
+  fst (reflective k f (gate_untyped hasbody parse parse consumes keys)) = Some s ->
+  fst (expected hasbody parse consumes keys) = Some s \/ (k = KForm /\ f = Some s /\ fst (expected hasbody parse consumes keys) = None).
+Proof.
+  intros NE H. rewrite <- (gate_untyped_expected hasbody parse consumes keys NE).
+  destruct (outcome_cases (gate_untyped hasbody parse parse consumes keys)) as [[E O]|[c [l [E O]]]];
+    rewrite O; unfold reflective in H; rewrite E in H; cbn [fst] in *.
+  - right. destruct k; try discriminate. auto.
+  - left. exact H.
+Qed.
